@@ -29,6 +29,7 @@ impl Engine for C06 {
             alpha_w: [30, 20, 15, 25, 3, 5, 2],
             min_len: 0,
             dup_pct: 5,
+            tab_desc_pct: 12,
         };
         let mut records = g.gen(rng);
         // sometimes a few very long records so that lines straddle the 8 KiB
